@@ -54,6 +54,9 @@ Proof. exact piece_step. Qed.
 Example C10_nonvacuous : left_blocks 40000 = [(0, 16384); (16384, 16384); (32768, 7232)] /\ left_blocks 16384 = [(0, 16384)].
 Proof. vm_compute. split; reflexivity. Qed.
 
+(* "each at most 16 KiB": the code's constant, pinned *)
+Example C10_block_pinned : PIECE_BLOCK_SIZE = 16384. Proof. reflexivity. Qed.
+
 Print Assumptions C10_tiling.
 Print Assumptions C10_tiling_sum.
 Print Assumptions C10_assignment.
